@@ -59,7 +59,13 @@ impl Program {
         // collect all instances of type templates from the symbol table
         let mut data_types = Vec::new();
         let mut codata_types = Vec::new();
-        for (name, (pol, type_args, xtors)) in symbol_table.types {
+        // the instances are collected in a fixed order, so that the result (and everything printed
+        // from it) does not depend on the iteration order of the hash map
+        let mut instances: Vec<_> = std::mem::take(&mut symbol_table.types)
+            .into_iter()
+            .collect();
+        instances.sort_by(|(name_fst, _), (name_snd, _)| name_fst.cmp(name_snd));
+        for (name, (pol, type_args, xtors)) in instances {
             match pol {
                 Polarity::Data => {
                     let ctors = xtors
